@@ -100,14 +100,28 @@ func buildArena(sc *pw.Scenario) error {
 			err = os.Symlink(n.Target, p)
 		case "fifo":
 			err = syscall.Mkfifo(p, 0o644)
+		case "sock":
+			err = mkSocket(p)
+		case "dev":
+			err = syscall.Mknod(p, syscall.S_IFCHR|0o644, 1<<8|3) // like /dev/null; needs uid 0
 		}
 		if err != nil {
 			return fmt.Errorf("tree node %s: %w", p, err)
 		}
 	}
 	if sc.Rules != nil {
-		if err := os.WriteFile(pw.SrcRoot+"/.terraformignore", []byte(*sc.Rules), 0o644); err != nil {
-			return err
+		switch sc.RulesKind {
+		case "dir":
+			// the rule file cannot be read at all
+			os.Mkdir(pw.SrcRoot+"/.terraformignore", 0o755)
+		case "longline":
+			// valid rules, then a line longer than a line scanner accepts
+			long := *sc.Rules + "\n" + strings.Repeat("x", 70000) + "\n"
+			os.WriteFile(pw.SrcRoot+"/.terraformignore", []byte(long), 0o644)
+		default:
+			if err := os.WriteFile(pw.SrcRoot+"/.terraformignore", []byte(*sc.Rules), 0o644); err != nil {
+				return err
+			}
 		}
 		setTimes(pw.SrcRoot+"/.terraformignore", 1300000001, 0)
 	}
@@ -129,6 +143,18 @@ func buildArena(sc *pw.Scenario) error {
 	}
 	return nil
 }
+
+// mkSocket leaves a unix-domain socket file at p.
+func mkSocket(p string) error {
+	fd, err := syscall.Socket(syscall.AF_UNIX, syscall.SOCK_STREAM, 0)
+	if err != nil {
+		return err
+	}
+	defer syscall.Close(fd)
+	return syscall.Bind(fd, &syscall.SockaddrUnix{Name: p})
+}
+
+func isSpecial(kind string) bool { return kind == "fifo" || kind == "sock" || kind == "dev" }
 
 func spell(s, cwd string) string {
 	switch s {
@@ -310,6 +336,22 @@ func Run(sc *pw.Scenario) *simkit.Outcome {
 	for _, h := range sc.History {
 		sink := simkit.NewSimWriter("hist", simkit.WriterPlan{}, simkit.NewLog(), nil)
 		switch {
+		case h == "shared:stale-rules":
+			// the same Packer packed this very directory before, under another rule file
+			if sc.Rules != nil && sc.RulesKind == "" {
+				old := "*\n!keep-nothing\n"
+				os.WriteFile(pw.SrcRoot+"/.terraformignore", []byte(old), 0o644)
+				doPack(sc.Opts, pw.SrcRoot, sink)
+				os.WriteFile(pw.SrcRoot+"/.terraformignore", []byte(*sc.Rules), 0o644)
+				setTimes(pw.SrcRoot+"/.terraformignore", 1300000001, 0)
+				setTimes(pw.SrcRoot, 1300000000, 0)
+			}
+		case strings.HasPrefix(h, "shared:fail@"):
+			// an earlier Pack on the same Packer failed half-way (its writer broke)
+			off := 0
+			fmt.Sscan(h[len("shared:fail@"):], &off)
+			bad := simkit.NewSimWriter("hist-fail", simkit.WriterPlan{Faults: []simkit.Fault{{Off: off, Kind: "err", Sticky: true}}}, simkit.NewLog(), nil)
+			doPack(sc.Opts, pw.SrcRoot, bad)
 		case h == "shared:hist3":
 			// the same Packer serves another root first (its relative allow-list entry means something else there)
 			doPack(sc.Opts, "/w/hist3/inner", sink)
@@ -407,12 +449,47 @@ func Run(sc *pw.Scenario) *simkit.Outcome {
 				w := simkit.NewSimWriter("other-"+o, simkit.WriterPlan{}, log, sched)
 				save := sharedPacker
 				_ = save
-				p, _ := packer(pw.Opts{Ignore: true})
+				p := sharedPacker
+				if p == nil {
+					p, _ = packer(pw.Opts{Ignore: true})
+				}
 				func() {
 					defer func() { recover() }()
 					p.Pack("/w/"+o, w)
 				}()
 				log.Add(tk.ID, "other-pack-done", o)
+			})
+		}
+		if len(sc.Mutations) > 0 {
+			sched.Go("mutator", func(tk *simkit.Task) {
+				for _, m := range sc.Mutations {
+					// let the packer get somewhere first
+					for k := 0; k < 3; k++ {
+						tk.Yield("mutator-wait")
+					}
+					p := pw.SrcRoot + "/" + m.Path
+					var err error
+					switch m.Op {
+					case "truncate":
+						err = os.Truncate(p, int64(m.Size))
+					case "grow":
+						var f *os.File
+						if f, err = os.OpenFile(p, os.O_WRONLY|os.O_APPEND, 0); err == nil {
+							f.Write(bytes.Repeat([]byte("G"), m.Size+1))
+							f.Close()
+						}
+					case "remove":
+						err = os.Remove(p)
+					case "chmod000":
+						err = os.Chmod(p, 0)
+					case "replace-with-dir":
+						if err = os.Remove(p); err == nil {
+							err = os.Mkdir(p, 0o755)
+						}
+					}
+					log.Add(tk.ID, "mutate", fmt.Sprintf("%s %s size=%d err=%v", m.Op, m.Path, m.Size, err != nil))
+					out.Fault("tree-mutation/"+m.Op, 1)
+				}
 			})
 		}
 		if len(sc.Chdirs) > 0 {
@@ -468,6 +545,16 @@ func Run(sc *pw.Scenario) *simkit.Outcome {
 			continue
 		}
 		checkMeta(out, i, r)
+		if len(sc.Mutations) > 0 {
+			// the tree moved under the packer: only that Pack told the truth about what it wrote is checked
+			out.Probe("pack-succeeded-while-tree-changed")
+			continue
+		}
+		if sc.RulesKind != "" {
+			// the rule file could not be read (completely): the built-in rules still apply
+			checkBuiltinRules(out, sc, i, r, t)
+			continue
+		}
 		checkIgnore(out, sc, i, r, t, rules)
 		checkLinksAndProvenance(out, sc, i, r, t)
 		checkDerefComplete(out, sc, i, r, t)
@@ -475,9 +562,11 @@ func Run(sc *pw.Scenario) *simkit.Outcome {
 			checkModelList(out, sc, i, r, t, rules)
 		}
 	}
-	checkRejections(out, sc, res, t, rules)
-	checkSameOutput(out, sc, res)
-	checkRoundTrips(out, sc, res, t, rules, log)
+	if len(sc.Mutations) == 0 && sc.RulesKind == "" {
+		checkRejections(out, sc, res, t, rules)
+		checkSameOutput(out, sc, res)
+		checkRoundTrips(out, sc, res, t, rules, log)
+	}
 
 	if hasLink || sc.Rules != nil || sc.Conc || len(sc.Runs) > 1 || hasOut {
 		out.Nontrivial = true
@@ -623,7 +712,7 @@ func checkIgnore(out *simkit.Outcome, sc *pw.Scenario, i int, r *result, t *tree
 		if n != nil {
 			kind = n.Kind
 		}
-		if kind == "dir" || kind == "fifo" {
+		if kind == "dir" || isSpecial(kind) {
 			continue
 		}
 		// out-of-tree links are replaced or refused, not "shipped as themselves": only their presence by name matters with dereference
@@ -665,6 +754,25 @@ func checkIgnore(out *simkit.Outcome, sc *pw.Scenario, i int, r *result, t *tree
 			out.Probe("deref-dir-path-judged")
 		}
 	}
+}
+
+// checkBuiltinRules: when ignore processing is on, the built-in exclusions hold
+// whatever happened to the user's rule file.
+func checkBuiltinRules(out *simkit.Outcome, sc *pw.Scenario, i int, r *result, t *tree) {
+	if !sc.Opts.Ignore {
+		return
+	}
+	def := model.DefaultIgRules()
+	for _, e := range r.ents {
+		p := entryPath(e.Name)
+		if e.Type == tar.TypeDir {
+			continue
+		}
+		if model.Excluded(def, p) {
+			out.Violate("C03", "excluded-shipped", "builtin-rules-off", fmt.Sprintf("run %d: %s is excluded by the built-in rules (the rule file is %s) but appears in the slug", i, p, sc.RulesKind))
+		}
+	}
+	out.Probe("unreadable-rule-file")
 }
 
 func rulesSrc(rules []model.IgRule) string {
@@ -1352,9 +1460,9 @@ func compareRoundTrip(out *simkit.Outcome, sc *pw.Scenario, i int, r *result, t 
 		n := t.src[p]
 		ig := sc.Opts.Ignore
 		switch n.Kind {
-		case "fifo":
+		case "fifo", "sock", "dev":
 			if _, ok := got[p]; ok {
-				out.Violate("C02", "special-shipped", "fifo", fmt.Sprintf("run %d: special file %s came out of the round trip", i, p))
+				out.Violate("C02", "special-shipped", n.Kind, fmt.Sprintf("run %d: special file %s (%s) came out of the round trip", i, p, n.Kind))
 			}
 			expected[p] = true
 			continue
